@@ -6,14 +6,17 @@ TA = {1: dict(i1=0, hasQ=0, prim=0, hasM=0), 2: dict(i1=1, hasQ=0, prim=0, hasM=
       4: dict(i1=1, hasQ=0, prim=1, hasM=0), 5: dict(i1=1, hasQ=1, prim=1, hasM=0), 6: dict(i1=0, hasQ=1, prim=0, hasM=0),
       7: dict(i1=1, hasQ=0, prim=0, hasM=1), 8: dict(i1=1, hasQ=1, prim=0, hasM=1), 9: dict(i1=0, hasQ=0, prim=0, hasM=0),
       10: dict(i1=1, hasQ=0, prim=0, hasM=0), 11: dict(i1=1, hasQ=1, prim=0, hasM=1), 12: dict(i1=0, hasQ=0, prim=0, hasM=1),
-      13: dict(i1=1, hasQ=0, prim=0, hasM=0), 14: dict(i1=1, hasQ=0, prim=1, hasM=1)}
-PROV_TYPES = [1, 2, 3, 4, 5, 6, 7, 8, 12, 13, 14]
+      13: dict(i1=1, hasQ=0, prim=0, hasM=0), 14: dict(i1=1, hasQ=0, prim=1, hasM=1),
+      15: dict(i1=1, hasQ=0, prim=0, hasM=0, zero=1), 16: dict(i1=1, hasQ=0, prim=0, hasM=1, zero=1)}
+PROV_TYPES = [1, 2, 3, 4, 5, 6, 7, 8, 12, 13, 14, 15, 16]
 HOLDER_TYPES = [9, 10, 11]
 KINDS = ["iface", "siface", "ptr", "sptr", "any"]
 QUALS = [(False, []), (True, ["g1"]), (True, ["g1", "g2"]), (True, ["g9"])]
 
 
 def attr(rng, ty, named=None):
+    if TA[ty].get("zero"):
+        named = False          # a field-less struct has nowhere to keep a custom name
     return dict(ty=ty, named=rng.random() < 0.5 if named is None else named,
                 q=rng.choice(["g1", "g2"]) if TA[ty]["hasQ"] else "-")
 
@@ -38,6 +41,15 @@ def rand_point(rng, nprov, focus):
         bn = rng.choice([-1] + list(range(1, nprov + 1)))
         hq, q = rng.choice([(False, []), (False, []), (True, ["g1"])])
         return point(kind, "wire", bn, hq, q, rng.random() < 0.6)
+    if focus == "C09":       # unsatisfiable points of every kind, required and optional
+        r0 = rng.random()
+        if r0 < 0.3:
+            return point(rng.choice(["iface", "siface"]), "func", 0, rng.random() < 0.3, ["g9"], rng.random() < 0.6)
+        if r0 < 0.55:
+            return point(rng.choice(["iface", "ptr", "any"]), "wire", -1, False, [], rng.random() < 0.6)
+        if r0 < 0.8:
+            return point(rng.choice(["iface", "siface", "ptr", "sptr"]), "wire", 0, True, ["g9"], rng.random() < 0.6)
+        return point(rng.choice(["iface", "siface", "ptr", "sptr"]), "wire", 0, False, [], rng.random() < 0.6)
     if focus == "C08":
         hq, q = rng.choice(QUALS[1:] + QUALS)
         if rng.random() < 0.15:
@@ -61,6 +73,8 @@ def rand_scenario(rng, focus, sid, max_prov=5, max_pts=3):
     while True:
         n = rng.randint(1, max_prov)
         provs = [attr(rng, rng.choice(HOLDER_TYPES))] + [attr(rng, rng.choice(PROV_TYPES)) for _ in range(n)]
+        if focus in ("C06", "C09") and rng.random() < 0.2:
+            provs += [attr(rng, 15), attr(rng, 16)]      # two field-less components: same address, different components
         if name_ok(provs):
             break
     npts = rng.randint(1, max_pts)
